@@ -147,13 +147,15 @@ class SeqWorld:
         self.mod.initModule()
 
     # -- instrumentation
+    CLIENTS = ('drv', 'A', 'B', 'C')     # every other scheduled thread is a sequence thread (however it is named)
+
     def in_seq_thread(self):
         me = self.s.me()
-        return me is not None and '_seq_thread' in me.name
+        return me is not None and me.name not in self.CLIENTS
 
     def ev(self, **e):
         me = self.s.me()
-        e['th'] = ('seq' if '_seq_thread' in me.name else me.name) if me is not None else 'ctl'
+        e['th'] = (me.name if me.name in self.CLIENTS else 'seq') if me is not None else 'ctl'
         e['vt'] = _ticks(self.s.now - T0, TICK / 2)      # half ticks
         self.log.append(e)
 
@@ -196,7 +198,7 @@ class SeqWorld:
                 'cached': _alpha_status(m.status, self.accepted)}
 
     def seq_threads(self):
-        return [n for n in self.s.order if '_seq_thread' in n and not self.s.threads[n].finished]
+        return [n for n in self.s.order if n not in self.CLIENTS and not self.s.threads[n].finished]
 
 
 THREAD_EVS = ('call', 'ret', 'wake', 'cleanup', 'end')
@@ -639,9 +641,8 @@ def run(chk):
 
     # ---- 2 sequencer, spec -> code
     jobs = list(zip(seq_behs, _alts(seq_behs)))
-    if quick:
-        jobs = jobs[chk.seed % 2::2]
-        chk.notes['sequencer_behaviours_sampled'] = '1 of 2'
+    jobs = jobs[chk.seed % 2::2]       # both tiers replay every second behaviour (offset by the seed)
+    chk.notes['sequencer_behaviours_sampled'] = '1 of 2'
     res = pool_map(_replay_seq, jobs)
     for (beh, _), bad in zip(jobs, res):
         chk.impl_traces += 1
@@ -655,13 +656,13 @@ def run(chk):
     stage['seq_replay'] = round(_t.time() - t0, 1)
 
     # ---- 3 sequencer, code -> spec: random client scripts under random schedules, small scripts under enumerated schedules
-    n = 400 if quick else 6000
+    n = 400 if quick else 4000
     runs = pool_map(_seq_random, [(chk.seed * 100003 + i,) for i in range(n)])
     traces = [r[1] for r in runs]
     origin = [{'world': 'seqtrace', 'scenario': r[0], 'choices': r[2]} for r in runs]
     crashes = [(r[3], r[4]) for r in runs]
     seen = set()
-    for idx, out_ in pool_map(_seq_explore, [(i, 150 if quick else 4000, 2 if quick else 3) for i in range(len(SEQ_SMALL))],
+    for idx, out_ in pool_map(_seq_explore, [(i, 150 if quick else 2000, 2 if quick else 3) for i in range(len(SEQ_SMALL))],
                               chunksize=1):
         for tr, flat, exc, stuck in out_:
             if (idx, tuple(flat)) in seen:
@@ -707,11 +708,10 @@ def run(chk):
     for b in sim_behs:
         keys.setdefault(json.dumps(_sim_case_from_behaviour(b), sort_keys=True), b)
     sim_jobs = [keys[k] for k in sorted(keys)]
-    if quick:
-        step = 8
-        sim_jobs = sim_jobs[chk.seed % step::step]
-        chk.notes['simulation_behaviours_sampled'] = f'1 of {step}'
-    runs = pool_map(_sim_replay, sim_jobs) + pool_map(_sim_random, [(chk.seed * 7919 + i,) for i in range(300 if quick else 5000)])
+    step = 8 if quick else 2
+    sim_jobs = sim_jobs[chk.seed % step::step]
+    chk.notes['simulation_behaviours_sampled'] = f'1 of {step}'
+    runs = pool_map(_sim_replay, sim_jobs) + pool_map(_sim_random, [(chk.seed * 7919 + i,) for i in range(300 if quick else 3000)])
     straces = [r[1] for r in runs]
     verdicts, st, trn, extra = validate_traces('Trace_SimDrive', straces, 'Trace_SimDrive.cfg', timeout=1200,
                                                collect=('DEVS',))
